@@ -13,7 +13,7 @@ THEOREMS = ['Pylx.C05_no_crash_strict', 'Pylx.C05_no_crash_partial', 'Pylx.C05_n
             'Pylx.C05Bal.stray_dollar_rejected']
 PROOF_MODULES = ['C05', 'C05Bal']
 RULE = ('PARSE strict: every string of <= k atoms over the LaTeX-significant alphabets (default + custom contexts), random token soups; '
-        'every single structural fault (unmatched { } $ \\( \\) \\[ \\] \\begin{x} \\end{x}) injected at every token boundary outside '
+        'every single structural fault (unmatched { } $ \\( \\) \\[ \\] \\begin{x} \\end{x}) injected at every token boundary, and every closing marker replaced by the closing marker of another construct (\\end{e} by \\end{zz}, \\) by \\] and conversely), outside '
         'verbatim text and comments of generated well-formed documents; oracle: outcome is a tree or LatexWalkerParseError with '
         '0 <= pos <= len and (lineno, colno) = pos_to_lineno_colno(pos); faulty documents are rejected; sig = outcome class + error kind')
 TRUSTED = ['tokenizer model (C11)', 'closed world of argument parsers (standard argument types, legacy verbatim parsers)']
@@ -28,7 +28,7 @@ def cases(tier, rng):
     for c in parseprops.base_cases(tier, rng, strict_only=True):
         yield c
     # fault injection on generated well-formed documents
-    n = 150 if tier == 'quick' else 2500
+    n = 300 if tier == "quick" else 4000
     for i in range(n):
         ctxname = rng.choice(['default', 'A'])
         d = docgen.gen_doc(rng, ctxname, budget=rng.randint(2, 9))
@@ -36,6 +36,11 @@ def cases(tier, rng):
         yield {'tol': False, 'ctx': ctxname if ctxname == 'default' else docgen.ctx_of(ctxname), 's': s, 'wf': True}
         for (pos, txt) in docgen.fault_sites(d, rng, ctxname):
             yield {'tol': False, 'ctx': ctxname if ctxname == 'default' else docgen.ctx_of(ctxname), 's': s[:pos] + txt + s[pos:], 'fault': [pos, txt], 'base': s}
+        if not any(docgen.STRUCTURAL & set(v) for v in docgen.verbatim_texts(d)):
+            for (pos, oldm, newm) in docgen.replacement_faults(d)[:6]:
+                assert s[pos:pos+len(oldm)] == oldm, (s, pos, oldm)
+                yield {'tol': False, 'ctx': ctxname if ctxname == 'default' else docgen.ctx_of(ctxname), 's': s[:pos] + newm + s[pos+len(oldm):],
+                       'fault': [pos, oldm + ' -> ' + newm], 'base': s}
 
 def to_line(c):
     if c.get('deep'):
